@@ -72,6 +72,12 @@ func G1Candidates(s, H G1) []Candidate {
 			add("x+p", b)
 		}
 	}
+	// non-reduced x just above p: p+k for the first few k that are x-coordinates of curve points
+	// (k = 0 is the order-3 point (0, +-2)); independent of s. A decoder that skips or weakens the
+	// x < p test near p accepts these as the point with x = k.
+	for _, c := range smallAliases() {
+		add(c.Name, c.Bytes)
+	}
 	for f := 0; f < 8; f++ {
 		b := append([]byte{}, enc...)
 		b[0] = b[0]&0x1f | byte(f)<<5
@@ -131,4 +137,34 @@ func JudgeG1(b []byte) G1Verdict {
 		return G1Verdict{}
 	}
 	return G1Verdict{Decodes: true, InG1: p.InSubgroup(), Point: p}
+}
+
+
+var (
+	smallAliasCache []Candidate
+	smallAliasOnce  sync.Once
+)
+
+// smallAliases: compressed strings whose x field is p+k (k small, (k,y) on E1), both sign bits.
+func smallAliases() []Candidate {
+	smallAliasOnce.Do(buildSmallAliases)
+	return smallAliasCache
+}
+
+func buildSmallAliases() {
+	var out []Candidate
+	k := big.NewInt(0)
+	for found := 0; found < 4; k = new(big.Int).Add(k, big1) {
+		if _, ok := G1FromX(k, false); !ok {
+			continue
+		}
+		found++
+		xp := new(big.Int).Add(k, P)
+		for _, sign := range []byte{0, FlagSign} {
+			b := fp48(xp)
+			b[0] |= FlagCompressed | sign
+			out = append(out, Candidate{fmt.Sprintf("x+p-small/k=%s/sign=%d", k.String(), sign>>5), b})
+		}
+	}
+	smallAliasCache = out
 }
